@@ -7,7 +7,7 @@ CONSTANTS
  OtherType = {}
  MaxPre = 0
  MaxOps = 1
- MaxSends = 4
+ MaxSends = 3
  MaxServes = 2
  MaxApplies = 1
  Faults = FALSE
